@@ -42,6 +42,7 @@ Fixpoint seq_history (evs : list ev) : list ev :=
   | EReg ti l ok :: r => HRegStart l ti :: HRegEnd l ti ok :: seq_history r
   | EUnreg ti l :: r => HUnregStart l ti :: HUnregEnd l ti :: seq_history r
   | ERecv l k m pl g :: r => ERecv l k m pl g :: seq_history r
+  | ERelease l :: r => ERelease l :: seq_history r     (* looked at by clause (e) only *)
   | _ :: r => seq_history r
   end.
 
@@ -225,16 +226,81 @@ Definition P_d (h : hist) : bool :=
     | _ => true
     end) h.
 
+(* (e) "to exactly the registered listeners" / "receives nothing ... after
+       unregistration returned", on the callbacks themselves: a listener whose
+       unregistration has returned (and which has not begun to register on the
+       subject again) is not called any more -- except for the one callback the
+       dispatch had already decided when the unregistration came (listener
+       chosen, mutex released: C20_nothing_after_unregister).  What a history
+       shows of "already decided": callbacks of one message are made one after
+       the other by one goroutine, which decides on the next listener after the
+       previous callback returned.  A callback that the harness holds (gated;
+       it returns after the next ERelease of its listener) and that was running
+       when the unregistration returned therefore rules the exception out: the
+       decision came after its return, hence after the unregistration.
+       Histories without held callbacks (the concurrent runs) satisfy (e)
+       trivially; (c) bounds them by the publication time. *)
+Fixpoint release_after (h : hist) (l : N) (t : nat) : option nat :=
+  match h with
+  | [] => None
+  | (t', ERelease l') :: r => if N.eqb l l' && (t <? t') then Some t' else release_after r l t
+  | _ :: r => release_after r l t
+  end.
+
+(* the dispatch of m was inside a callback it could not leave at time u *)
+Definition dispatch_held (h : hist) (m : N) (u : nat) : bool :=
+  existsb (fun e => match snd e with
+                    | ERecv l' _ m' _ true =>
+                        N.eqb m m' && (fst e <? u) &&
+                        match release_after h l' (fst e) with Some tr => u <? tr | None => true end
+                    | _ => false
+                    end) h.
+
+Fixpoint last_opt {A} (l : list A) : option A :=
+  match l with [] => None | [a] => Some a | _ :: r => last_opt r end.
+
+Definition P_e (h : hist) : bool :=
+  forallb (fun e =>
+    match snd e with
+    | ERecv l _ m _ _ =>
+        match pub_start h m with
+        | Some (ti, _, _) =>
+            (* the last registration of l on the subject that began before the callback *)
+            match last_opt (filter (fun iv => match iv with (rs, _, _, _) => rs <? fst e end) (intervals h l ti)) with
+            | Some (_, _, _, Some ue) =>
+                (* still unregistering at the time of the callback, or: the unregistration did
+                   not return while the dispatch of m was held in a callback *)
+                (fst e <? ue) || negb (dispatch_held h m ue)
+            | _ => true         (* registered or registering; never registered: (c) *)
+            end
+        | None => true          (* (c) *)
+        end
+    | _ => true
+    end) h.
+
+(* "no message is received twice" alone (the first half of (a)) *)
+Definition P_once (h : hist) : bool :=
+  forallb (fun l => forallb (fun m => count_recv h l m <=? 1) (published h)) (listeners_of h).
+
 (* the history is one the checker is meant for *)
 Definition hist_wf (h : hist) : bool :=
   forallb (fun l => forallb (fun ti => alternates h l ti 0) (subjects_of h)) (listeners_of h).
 
-Definition P_C20 (kinds : nat -> N) (h : hist) : bool := P_a h && P_b h && P_c kinds h && P_d h.
+Definition P_C20 (kinds : nat -> N) (h : hist) : bool := P_a h && P_b h && P_c kinds h && P_d h && P_e h.
 
 (* which clause fails first: 0 = none *)
 Definition P_C20_clause (kinds : nat -> N) (h : hist) : N :=
   if negb (P_a h) then 1 else if negb (P_b h) then 2 else if negb (P_c kinds h) then 3
-  else if negb (P_d h) then 4 else 0.
+  else if negb (P_d h) then 4 else if negb (P_e h) then 5 else 0.
+
+(* P_C20 without "receives every message" (the second half of (a)): what holds of
+   EVERY history, also of those that unregister a listener while messages for it
+   are on their way (known finding C20/unregister/pending-lost: those are lost) *)
+Definition P_C20_safety (kinds : nat -> N) (h : hist) : bool :=
+  P_once h && P_b h && P_c kinds h && P_d h && P_e h.
+Definition P_C20_safety_clause (kinds : nat -> N) (h : hist) : N :=
+  if negb (P_once h) then 1 else if negb (P_b h) then 2 else if negb (P_c kinds h) then 3
+  else if negb (P_d h) then 4 else if negb (P_e h) then 5 else 0.
 
 (* ======================================================================== *)
 (* replaying a sequential script on the model                                 *)
@@ -464,7 +530,11 @@ Definition model_callbacks (t : st) : list (lid * msg) := map (fun c => (snd (fs
            condition of C20_subject_inj and that no two entries denote the
            same subject of the property (pool_ok, code 5 otherwise).
            props/C20.v: pool_wf is wf_target, and in a table that passes the
-           model's subjects are pairwise different (C20_pool_subjects_distinct). *)
+           model's subjects are pairwise different (C20_pool_subjects_distinct).
+   mode 4: mode 0 + the clauses of P_C20 that hold of every history (P_C20_safety:
+           at most once, order, foreign / after unregistration (c) and (e),
+           unmodified) -- scripts with held callbacks in which anything goes,
+           unregistrations with messages on their way included *)
 Definition pool_wf (t : target) : bool :=
   match tkind t with
   | KSession => true
@@ -505,7 +575,7 @@ Definition judge (c : case) : list (N * N * N) :=
   let kinds := fun ti => kind_code (tkind (tgt tb ti)) in
   (match key_mismatch 0 tb with Some i => [(id, 3%N, i)] | None => [] end) ++
   (match mode with
-   | 0%N | 1%N | 3%N => match replay tb 0 (mkR init [] []) evs with Some i => [(id, 1%N, i)] | None => [] end
+   | 0%N | 1%N | 3%N | 4%N => match replay tb 0 (mkR init [] []) evs with Some i => [(id, 1%N, i)] | None => [] end
    | _ => []
    end) ++
   (match mode with
@@ -519,6 +589,9 @@ Definition judge (c : case) : list (N * N * N) :=
    | 2%N => let h := index evs in
             if negb (hist_wf h) then [(id, 4%N, 0%N)]
             else if P_C20 kinds h then [] else [(id, 2%N, P_C20_clause kinds h)]
+   | 4%N => let h := index (seq_history evs) in
+            if negb (hist_wf h) then [(id, 4%N, 0%N)]
+            else if P_C20_safety kinds h then [] else [(id, 2%N, P_C20_safety_clause kinds h)]
    | _ => []
    end).
 
